@@ -523,6 +523,9 @@ def run(ctx):
     r04h(ctx)
     r04i(ctx)
     r04j(ctx)
+    # the zip writer filters no part by its name: a sub-document's content.xml is a part like any other (rule shared with C03)
+    from .c03 import r03c
+    r03c(ctx)
     # the manifest entry of a part is found and removed by the exact path: a prefix or substring match unlists other parts that stay in the package (shared with C14)
     from .c14 import r14f
     r14f(ctx)
